@@ -112,7 +112,8 @@ def exec_roundtrip(case, out):
                 t.dump(path)
                 try:
                     with contextlib.redirect_stdout(io.StringIO()):
-                        b = Tensor.fromYAMLfile(path)
+                        # the two documented loaders: the class method and the (older) constructor form
+                        b = Tensor(yamlfile=path, default=d) if case.get("loader") == "ctor" else Tensor.fromYAMLfile(path)
                     out.update({"ids_back": [list(x) if isinstance(x, (list, tuple)) else x for x in b.getRankIds()], "shape_back": shape_list(b.getShape()),
                                 "name_back": b.getName(), "back": proj.proj_fiber(b.getRoot(), mode=mode), "eq": 1 if (b == t and t == b) else 0})
                 except BaseException as ex:  # noqa: B036
